@@ -7,6 +7,7 @@ segment within a segmentation image.
 import inspect
 import warnings
 from copy import copy, deepcopy
+from itertools import groupby
 
 import numpy as np
 from astropy.utils import lazyproperty
@@ -1321,24 +1322,44 @@ class SegmentationImage:
         polygons = list(shapes(self.data.astype('int32'), connectivity=8))
         polygons.sort(key=lambda x: x[1])  # sort in label order
 
-        # do not include polygons for background (label = 0)
-        return polygons[1:]
+        # do not include polygons for background (label = 0); note that
+        # the background can be absent or consist of several regions
+        return [polygon for polygon in polygons if polygon[1] != 0]
 
     @lazyproperty
     def polygons(self):
         """
         A list of `Shapely <https://shapely.readthedocs.io/en/stable/>`_
         polygons representing each source segment.
+
+        The list has one entry per label and matches the order of the
+        ``labels`` attribute. A segment composed of several
+        non-connected regions is represented by a
+        `shapely.MultiPolygon`.
         """
         from shapely import transform
-        from shapely.geometry import shape
+        from shapely.geometry import MultiPolygon, shape
 
-        polygons = [shape(geo_poly[0]) for geo_poly in self._geo_polygons
-                    if geo_poly[1] != 0]
+        polygons = []
+        for _, group in groupby(self._geo_polygons, key=lambda x: x[1]):
+            parts = [shape(geo_poly[0]) for geo_poly in group]
+            polygons.append(parts[0] if len(parts) == 1
+                            else MultiPolygon(parts))
 
         # shift the vertices so that the (0, 0) origin is at the
         # center of the lower-left pixel
         return transform(polygons, lambda x: x - [0.5, 0.5])
+
+    @staticmethod
+    def _polygon_parts(polygons):
+        """
+        Return a flat list of the simple polygons making up the input
+        (multi)polygons.
+        """
+        parts = []
+        for polygon in polygons:
+            parts.extend(getattr(polygon, 'geoms', [polygon]))
+        return parts
 
     @staticmethod
     def _get_polygon_vertices(polygon, origin=(0, 0), scale=1.0):
@@ -1367,7 +1388,7 @@ class SegmentationImage:
         from regions import Regions
 
         return Regions([_shapely_polygon_to_region(poly)
-                        for poly in self.polygons])
+                        for poly in self._polygon_parts(self.polygons)])
 
     def to_patches(self, *, origin=(0, 0), scale=1.0, **kwargs):
         """
@@ -1404,7 +1425,7 @@ class SegmentationImage:
         patch_kwargs.update(kwargs)
 
         patches = []
-        for poly in self.polygons:
+        for poly in self._polygon_parts(self.polygons):
             xy = self._get_polygon_vertices(poly, origin=origin, scale=scale)
             patches.append(Polygon(xy, **patch_kwargs))
 
